@@ -108,6 +108,58 @@ type uconn = {
   mutable resp : resp option;
 }
 
+
+(* Observation-only pre-pass (property oracles before any model comparison):
+   first response of a script with one connection and no re-POST before it ends. *)
+let prepass (validated : (char list * shape) list option) (regtoks : string list) script outs =
+  match validated with
+  | None -> ()
+  | Some shs ->
+    let active = build_map shs in
+    let naccept = List.length (List.filter (fun t -> t.[0] = 'a') script) in
+    if naccept = 1 then begin
+      let rec find sc os = match sc, os with
+        | t :: sc', o :: os' when t.[0] = 'o' -> Some (t, o, sc', os')
+        | t :: sc', _ :: os' when t.[0] = 'a' -> find sc' os'
+        | _ -> None in
+      match find script outs with
+      | None -> ()
+      | Some (t, o, sc, os) ->
+        (match split ':' (tl1 t) with
+         | [_; si; rs; hl] when starts "o1" o ->
+             let rg = chars_of_hex (List.nth regtoks (ios si)) in
+             (match List.assoc_opt rg active with
+              | None -> ()
+              | Some sh ->
+                let rs = z_of_dec rs and hl = z_of_dec hl in
+                let data = ref [] and del = ref [] and closed = ref false and gaps = ref [] in
+                let rec go sc os = match sc, os with
+                  | w :: sc', o :: os' when w.[0] = 'w' && not !closed ->
+                      (match split ':' (tl1 w), split ':' o with
+                       | [_; hb], [_; e; cs; eg; d] ->
+                           data := !data @ chars_of_hex hb;
+                           let pos = ref (List.length !del) in
+                           if cs <> "-" then List.iter (fun x -> match split '.' x with
+                               | [n; _; g] -> gaps := (zi !pos, zi (ios g)) :: !gaps; pos := !pos + ios n
+                               | _ -> ()) (split ',' cs);
+                           gaps := (zi !pos, zi (ios eg)) :: !gaps;
+                           del := !del @ chars_of_hex d;
+                           if e = "fc" then closed := true;
+                           go sc' os'
+                       | _ -> ())
+                  | _ -> () in
+                go sc os;
+                if not (ok_prefix !data !del !closed) then
+                  raise (Fail ("bytes_prefix", "delivered bytes are not the written bytes"));
+                if not (ok_close sh.sh_acts rs hl !data !del !closed) then
+                  raise (Fail ("close_at_k", Printf.sprintf "rs=%d hl=%d written=%d delivered=%d closed=%b first_close=%s"
+                                 (iz rs) (iz hl) (List.length !data) (List.length !del) !closed
+                                 (match first_close sh.sh_acts rs with Some k -> string_of_int (iz k) | None -> "-")));
+                if not (ok_halts sh.sh_acts rs hl (zi (List.length !del)) !gaps) then
+                  raise (Fail ("halt_sleeps", "a halt whose offset was crossed shows a shorter pause than configured")))
+         | _ -> ())
+    end
+
 let judge_unit ins outs : verdict =
   let (cfgt, script) = split_bar ins in
   let (st0, rx, outs) = match outs with
@@ -121,6 +173,7 @@ let judge_unit ins outs : verdict =
    | Some _, 200 | None, 400 -> ()
    | Some _, _ -> raise (Dis (Printf.sprintf "valid configuration answered %d" st0))
    | None, _ -> raise (Dis "status"));
+  prepass validated regtoks script outs;
   let active = ref (match validated with Some s -> build_map s | None -> []) in
   let latency = ref (match cfgo, validated with
       | Some { cf_defaults = Some ((_, _), l); _ }, Some _ -> l | _ -> Z0) in
@@ -445,8 +498,10 @@ let judge_rate ins outs : verdict =
   let (cfgt, rest) = split_bar ins in
   let p = kvs rest in
   let n = ios (List.assoc "n" p) in
-  let bw = match List.filter (fun t -> starts "T:" t) cfgt with
-    | t :: _ -> (match split ':' t with [_; _; b] -> ios b | _ -> raise (Dis "bad-T"))
+  let (bw, skip) = match List.filter (fun t -> starts "T:" t) cfgt with
+    | t :: _ -> (match split ':' t with
+        | [_; by; b] -> (ios b, (match chars_of_hex by with d :: ['-'] -> Char.code d - 48 | _ -> 0))
+        | _ -> raise (Dis "bad-T"))
     | [] -> raise (Dis "rate-without-throttle") in
   (match outs with
    | s :: _ :: rs when s = "st200" ->
@@ -457,7 +512,7 @@ let judge_rate ins outs : verdict =
                  raise (Fail ("bytes_prefix", "bytes through a throttle differ from the bytes written: " ^ r));
                let el = ios (tl1 (tl1 el)) and mx = ios (tl1 (tl1 mx)) in
                if mx > bw then raise (Fail ("throttle_rate", Printf.sprintf "a single grant of %d bytes exceeds the bandwidth %d" mx bw));
-               if not (ok_rate (zi bw) (zi n) (zi el) (zi 150000)) then
+               if not (ok_rate (zi bw) (zi (n - skip)) (zi el) (zi 150000)) then
                  raise (Fail ("throttle_rate", Printf.sprintf "%d bytes at %d bytes per drain interval took only %dus" n bw el))
            | _ -> raise (Dis "bad-rate-out")) rs
    | _ -> raise (Dis "rate-status"));
